@@ -272,6 +272,15 @@ class Actor:
         self.tokhash = 0
 
 
+def _peek(obj, name):
+    """Read an instance attribute for a statistic WITHOUT running any code of
+    the tree under test (no properties, no __getattr__): instance dict only."""
+    try:
+        return obj.__dict__.get(name)
+    except Exception:
+        return None
+
+
 def make_sim_lexer(world, actor):
     """A subclass of the real CLexer that delegates to it; the public lexer=
     seam.  It yields to the scheduler, injects seam-aborts and logs tokens."""
@@ -420,15 +429,25 @@ class World:
             self.switch_sites[site] = self.switch_sites.get(site, 0) + 1
             p = frm.objs.get("_cur_parser")
             if p is not None:
-                ts = p._tokens
-                if len(ts._buffer) > ts._index:
+                ts = _peek(p, "_tokens")
+                if ts is not None and len(_peek(ts, "_buffer")) > _peek(ts, "_index"):
                     self.probe("switch_with_lookahead")
-                if len(p._scope_stack) > 1:
+                if len(_peek(p, "_scope_stack")) > 1:
                     self.probe("switch_inside_scope")
                 q = to.objs.get("_cur_parser")
                 if q is not None:
+                    # read the scope dicts directly: calling a method of the code
+                    # under test from a probe may have side effects (it did: a
+                    # look-up memo was filled at a moment the parser itself never
+                    # looks a name up, which produced a false alarm)
+                    def meaning(parser, nm):
+                        for scope in reversed(_peek(parser, "_scope_stack")):
+                            if nm in scope:
+                                return scope[nm]
+                        return False
+
                     for nm in ("T", "U", "V", "x", "y", "f"):
-                        if p._is_type_in_scope(nm) != q._is_type_in_scope(nm):
+                        if meaning(p, nm) != meaning(q, nm):
                             self.probe("switch_conflicting_typedef_meaning")
                             break
         except Exception:
@@ -475,13 +494,13 @@ class World:
         try:
             p = a.objs.get("_cur_parser")
             if p is not None:
-                probe["scope_depth"] = len(p._scope_stack)
-                probe["pending_tok"] = p.clex._pending_tok is not None
-                ts = p._tokens
-                probe["lookahead"] = len(ts._buffer) - ts._index
+                probe["scope_depth"] = len(_peek(p, "_scope_stack"))
+                probe["pending_tok"] = _peek(_peek(p, "clex"), "_pending_tok") is not None
+                ts = _peek(p, "_tokens")
+                probe["lookahead"] = len(_peek(ts, "_buffer")) - _peek(ts, "_index")
             lx = a.objs.get("_cur_lexer")
             if lx is not None:
-                probe["pending_tok"] = lx._pending_tok is not None
+                probe["pending_tok"] = _peek(lx, "_pending_tok") is not None
             fr = frame if frame is not None else sys._getframe(1)
             names = []
             while fr is not None and len(names) < 200:
@@ -728,8 +747,8 @@ class OpRunner:
             self._leak_info(form, res)
         try:
             res["post"] = {
-                "scope_depth": len(parser._scope_stack),
-                "pending": parser.clex._pending_tok is not None,
+                "scope_depth": len(_peek(parser, "_scope_stack")),
+                "pending": _peek(_peek(parser, "clex"), "_pending_tok") is not None,
             }
         except Exception:
             pass
@@ -933,7 +952,7 @@ class OpRunner:
         text = op_text(op)
         res["out"] = self._lex_outcome(lx, box, op, text, traced=True)
         try:
-            res["post"] = {"pending": lx._pending_tok is not None}
+            res["post"] = {"pending": _peek(lx, "_pending_tok") is not None}
         except Exception:
             pass
         a.objs.pop("_cur_lexer", None)
